@@ -336,7 +336,7 @@ func (s *SpecValidator) validateSchemaPropertyNames(nm string, sch spec.Schema, 
 			}
 			dups = append(dups, dup...)
 		}
-		return dups, res
+		// properties declared beside allOf, in the inheriting schema itself, are checked as well
 	}
 
 	for k := range schc.Properties {
